@@ -37,6 +37,14 @@ def dataset(spec):
     kind = spec[0]
     if kind == 'const':
         return np.full(spec[2], float(spec[1]))
+    if kind == 'int8span':
+        # an int8 column spanning more than 127: max - min overflows in int8 arithmetic (a candidate may end up with a nan score)
+        return np.round(np.linspace(-100, 100, spec[3])).astype(np.int8)
+    if kind == 'underflow':
+        # all zeros but one value of 1e-300: the variance underflows to 0
+        x = np.zeros(spec[3])
+        x[-1] = 1e-300
+        return x
     _, loc, scale, n = spec
     q = A.midpoints(n)
     if kind == 'bimodal':
@@ -55,7 +63,7 @@ def dataset_zoo(ns, locscale=LOCSCALE, shapes=None):
     return [(s, lo, sc, n) for s in shapes for (lo, sc) in locscale for n in ns]
 
 
-CONSTANTS = [('const', v, n) for v in (3.0, -1.0, 0.0, 1e9) for n in (1, 2, 50)]
+CONSTANTS = [('const', v, n) for v in (3.0, -1.0, 0.0, 1e9, 2.5, 1000.3) for n in (1, 2, 50)]
 
 # ------------------------------------------------------------------------------------------------
 # models: spec -> fresh unfitted instance
@@ -64,6 +72,11 @@ SCIPY_FAMILIES = ('beta', 'gamma', 'gaussian', 'loglaplace', 'student_t', 'unifo
 CLASSNAMES = {'beta': 'BetaUnivariate', 'gamma': 'GammaUnivariate', 'gaussian': 'GaussianUnivariate',
               'loglaplace': 'LogLaplace', 'student_t': 'StudentTUnivariate', 'uniform': 'UniformUnivariate',
               'truncated': 'TruncatedGaussian', 'kde': 'GaussianKDE', 'univariate': 'Univariate'}
+
+
+def half_scott(kde):
+    """A bandwidth rule given as a (module-level, hence picklable) callable."""
+    return 0.5 * kde.scotts_factor()
 
 
 def make_model(spec, data=None, random_state=None):
@@ -82,6 +95,10 @@ def make_model(spec, data=None, random_state=None):
         return U.TruncatedGaussian(**kw)
     if kind == 'kde':
         _, bw, ss, weighted = spec
+        if isinstance(bw, str) and bw.startswith('np.float32:'):
+            bw = np.float32(bw.split(':', 1)[1])         # a numpy scalar that is not a Python float subclass
+        elif bw == 'callable:half-scott':
+            bw = half_scott
         weights = None
         if weighted:
             n = len(data)
